@@ -2,6 +2,7 @@ import H2V.Lemmas.CodecBytes
 import H2V.Lemmas.CodecEncode
 import H2V.Lemmas.CodecSplit
 import H2V.Lemmas.CodecLoad
+import H2V.Lemmas.CodecLoadHeaders
 import H2V.Lemmas.CodecReader
 import H2V.Lemmas.CodecWriter
 import H2V.Lemmas.CodecDecode
@@ -19,6 +20,8 @@ import H2V.Lemmas.CodecWire
      `load{Data,Ping,WindowUpdate,Settings}_{sound,complete,error}` (exact agreement),
      `loadReset_*` + `loadReset_stream_zero`, `loadGoAway_*` + `loadGoAway_nonzero_stream`,
      `loadPriority_*` + `loadPriority_self_dependency`
+     header frames (CodecLoadHeaders): `loadHeadersHead_{sound,complete}`,
+     `loadPushPromiseHead_{sound,complete}` + `loadPushPromiseHead_four_octets`
   C. reader chunk invariance                            CodecReader
      `drain_fuel`, `drain_app`, `feed_append`, `feed_chunks`, `feed_chunks_state`,
      `rx_oversize_rejected`, `rx_oversize_rejected_early`
